@@ -90,7 +90,10 @@ pub struct Field {
     /// error for such a mismatch.
     #[serde(default)]
     pub type_width: Option<u32>,
-    /// order of the attribute arguments (the parser accepts any): 0 = range, access, stride;
+    /// syntactic variant of the attribute (the parser accepts all of them): value % 6 = order of
+    /// the arguments, +6 = trailing comma, +12 = legacy `stride: s`; also picks the spelling of an
+    /// enum field's `#[bitenum(..)]` attribute and of its discriminants.
+    /// Orders: 0 = range, access, stride;
     /// 1 = range, stride, access; 2 = access, range, stride; 3 = stride, range, access;
     /// 4 = access, stride, range; 5 = stride, access, range
     #[serde(default)]
@@ -652,8 +655,8 @@ pub fn gen_layout(rng: &mut Rng, id: u32, o: GenOpts) -> Layout {
     }
     for f in fields.iter_mut() {
         if rng.chance(30, 100) {
-            // 0..=5: argument order, +6: trailing comma
-            f.attr_order = rng.below(12) as u8;
+            // 0..=5: argument order, +6: trailing comma, +12: legacy `stride: s`
+            f.attr_order = rng.below(24) as u8;
         }
         if rng.chance(12, 100) {
             f.doc = rng.range(1, 2) as u8;
@@ -742,7 +745,7 @@ pub fn gen_probes(rng: &mut Rng, n: u32, first_id: u32) -> Vec<Layout> {
         let d = rng.chance(1, 2);
         // a bounds check may live where one particular argument is parsed: vary the order
         if rng.chance(45, 100) {
-            fields[0].attr_order = rng.below(12) as u8;
+            fields[0].attr_order = rng.below(24) as u8;
         }
         out.push(probe(id, n, name, fields, d));
         id += 1;
